@@ -164,6 +164,36 @@ func suiteV04(c *vctx) {
 				wok, _, _ := client.Auth(u, p, "svc", "realm")
 				c.emit("law.C04.sasl_socket_overlimit_denied "+id, vtf(!wok))
 			}
+			// the same request through the socket in awkward pieces (a byte-wise or chunking client, a socket
+			// proxy, a small send buffer): cut inside the length headers and inside the fields
+			if len(u) >= 1 && len(u) <= 256 && len(p) >= 1 && len(p) <= 256 && r.Intn(4) == 0 {
+				q := &sasl.Request{Login: u, Password: p, Service: "svc", Realm: "realm"}
+				if enc, err := q.Marshal(); err == nil {
+					if cn, err := net.Dial("unix", sock); err == nil {
+						cuts := []int{1, 2 + len(u)/2, 2 + len(u) + 1, 2 + len(u) + 2 + (len(p)+1)/2, len(enc) - 1}
+						if r.Bool() {
+							cuts = nil
+							for k := 1; k < len(enc); k++ {
+								cuts = append(cuts, k) // one byte per write
+							}
+						}
+						prev := 0
+						for _, cut := range cuts {
+							if cut > prev && cut < len(enc) {
+								cn.Write(enc[prev:cut])
+								prev = cut
+								time.Sleep(300 * time.Microsecond)
+							}
+						}
+						cn.Write(enc[prev:])
+						var resp sasl.Response
+						cn.SetReadDeadline(time.Now().Add(5 * time.Second))
+						derr := resp.Decode(cn)
+						cn.Close()
+						c.emit("law.C04.sasl_socket_equals_store fragmented "+id, vtf(derr == nil && resp.Result == refOk))
+					}
+				}
+			}
 			// HTTP basic-auth
 			{
 				req := httptest.NewRequest("GET", "/basic-auth", nil)
